@@ -886,6 +886,9 @@ def c20_sites(repo_root, tier):
                            and any(ast.unparse(a).endswith(".value") for a in list(c.args) + [k.value for k in c.keywords])]
                     decoders = ("unescape(", "parse_string_or_identifier(", "parse_string_or_path(", "parse_primitive(")
                     ok = not raw and (("StringLiteral(" not in body and ".value" not in body) or any(d in body for d in decoders))
+                    # a direct unescape() of a token that may be single-quoted must first turn \\' into ' (unescape knows no \\' escape)
+                    if ok and "unescape(" in body and not any(d in body for d in decoders[1:]) and "replace(\"\\\\'\", \"'\")" not in body:
+                        ok = False
                     _ob(obs, f"{m.name}:{qual}/site.string-literal-decoded@{_ordinal(fn, n, ast.If)}.EITHER_QUOTE", ok,
                         "a string token of either quote kind is turned into a value through a decoder" if ok else "a StringLiteral is built from the raw token text (escape sequences are not decoded)")
     _ob(obs, "liquid2/site.string-literal-sites.count", n_sites >= 8, f"{n_sites} string-literal parse sites found")
@@ -896,8 +899,14 @@ def c20_sites(repo_root, tier):
     note = "_parse_int_literal not found (integer literals parsed some other way)"
     if fn is not None:
         calls = {ast.unparse(c.func) for c in _calls(fn)}
-        ok = "float" not in calls and "to_int" in calls
-        note = "integer literals are converted digit-exactly (to_int of the digits, times 10**exponent), never through float()" if ok else f"_parse_int_literal calls {sorted(calls)}"
+        # exact integer arithmetic only: to_int of the digit strings and an integer power of ten - no float, Decimal (context
+        # precision!), round or string formatting in between
+        allowed = {"to_int", "len", "LiquidValueError", "token.value.lower().partition", "token.value.lower", "token.value.partition"}
+        rets = [ast.unparse(r.value) for r in ast.walk(fn) if isinstance(r, ast.Return) and r.value is not None]
+        exact = all(r in ("to_int(digits)", "to_int(digits) * 10 ** exp", "to_int(digits) * 10 ** to_int(exponent)") for r in rets) and len(rets) >= 2
+        ok = "to_int" in calls and calls <= allowed and exact
+        note = ("integer literals are converted digit-exactly (to_int of the digits, times an integer power of ten), with exact integer arithmetic only" if ok
+                else f"_parse_int_literal calls {sorted(calls - allowed)} / returns {rets}: not plainly exact integer arithmetic")
     _ob(obs, "liquid2.builtin.expressions:_parse_int_literal/site.exact-int", ok, note)
     int_sites = 0
     bad = []
@@ -1081,7 +1090,8 @@ def c18_sites(repo_root, tier):
         ok = False
         if fn is not None:
             first = _body_wo_doc(fn)[0]
-            if isinstance(first, ast.If) and ast.unparse(first.test) == "context.env.suppress_blank_control_flow_blocks and self.blank":
+            if isinstance(first, ast.If) and isinstance(first.test, ast.BoolOp) and isinstance(first.test.op, ast.And) \
+                    and sorted(ast.unparse(v) for v in first.test.values) == ["context.env.suppress_blank_control_flow_blocks", "self.blank"]:
                 b = [ast.unparse(s) for s in first.body]
                 uses_buffer = any("buffer" in s for s in b)
                 ok = b[0] == "buf = NullIO()" and b[-1] == "return 0" and not uses_buffer
@@ -1835,4 +1845,53 @@ def c01_twin(repo_root, tier):
     from .twin import run_twin
     tw = run_twin(repo_root, tier)
     obs = [o for o in tw["obligations"] if o["oid"].endswith("/twin") and (".render_to_output/" in o["oid"] or ".evaluate/" in o["oid"] or ".render/" in o["oid"])]
+    return {"obligations": obs, "samples": [], "trusted": [], "functions": [], "assumptions": []}
+
+
+# --------------------------------------------------------------------------- C16: optional context variables, twin obligations
+@register("C16")
+def c16_optional_lookups(repo_root, tier):
+    """A filter that looks up an *optional* context variable (context.resolve(name) without a default) holds a possibly-undefined
+    value: under the strict policy any truth test, comparison or conversion of it raises although the template never used the name.
+    Such a value must be tested with is_undefined() (or isinstance) before anything else is done with it."""
+    repo = Repo(repo_root)
+    obs = []
+    n_sites = 0
+    for m, qual, cls, fn, parent in _all_functions(repo):
+        opt = {}
+        for n in own_nodes(fn):
+            if isinstance(n, ast.Assign) and len(n.targets) == 1 and isinstance(n.targets[0], ast.Name) and isinstance(n.value, ast.Call) \
+                    and isinstance(n.value.func, ast.Attribute) and n.value.func.attr == "resolve" and ast.unparse(n.value.func.value) in ("context", "ctx") \
+                    and len(n.value.args) == 1 and not n.value.keywords:
+                opt[n.targets[0].id] = n.lineno
+        for var, line in opt.items():
+            n_sites += 1
+            bad = []
+            for n in own_nodes(fn):
+                tests = []
+                if isinstance(n, (ast.If, ast.While, ast.IfExp)):
+                    tests.append(n.test)
+                elif isinstance(n, ast.BoolOp):
+                    tests.extend(n.values)
+                elif isinstance(n, ast.UnaryOp) and isinstance(n.op, ast.Not):
+                    tests.append(n.operand)
+                for t in tests:
+                    if isinstance(t, ast.Name) and t.id == var and getattr(t, "lineno", 0) >= line:
+                        # a bare truth test of the possibly-undefined value: allowed only after an is_undefined()/isinstance() test of it
+                        guarded = False
+                        for g in own_nodes(fn):
+                            if isinstance(g, ast.If) and g.lineno <= t.lineno and any(
+                                    isinstance(c, ast.Call) and isinstance(c.func, ast.Name) and c.func.id in ("is_undefined", "isinstance") and c.args and isinstance(c.args[0], ast.Name) and c.args[0].id == var
+                                    for c in ast.walk(g.test)) and g.test is not t and not any(x is t for x in ast.walk(g.test)):
+                                guarded = True
+                        if not guarded:
+                            bad.append(f"line {t.lineno}: truth test of `{var}`")
+            _ob(obs, f"{m.name}:{qual}/site.optional-lookup-guarded.{var}", not bad,
+                f"`{var}` = context.resolve(..) (optional variable) is examined through is_undefined()/isinstance() before any truth test" if not bad
+                else f"`{var}` may be undefined (optional context variable) and is truth-tested directly ({bad[0]}): under StrictUndefined that raises although the template never used the name")
+    _ob(obs, "liquid2/site.optional-lookups.count", n_sites >= 4, f"{n_sites} optional context lookups found")
+    # strict failures are the same on both paths: twin obligations of every evaluate / render pair
+    from .twin import run_twin
+    tw = run_twin(repo_root, tier)
+    obs += [o for o in tw["obligations"] if o["oid"].endswith("/twin") and (".evaluate/" in o["oid"] or ".render_to_output/" in o["oid"])]
     return {"obligations": obs, "samples": [], "trusted": [], "functions": [], "assumptions": []}
